@@ -119,6 +119,8 @@ def extract(config, repo=None, crate="num_bigint", flags=None, profile=None):
         rf = "-Zmir-opt-level=0 -Awarnings"
         if profile == "rel":
             rf += " -C debug-assertions=off -C overflow-checks=off"
+        tkey = deps_template_key(repo, "facts:" + config, flags, rf, "nightly")
+        seeded = seed_target(tgt, tkey)
         env = dict(os.environ)
         env.update(
             {
@@ -139,6 +141,8 @@ def extract(config, repo=None, crate="num_bigint", flags=None, profile=None):
         if p.returncode != 0 or not os.path.exists(produced):
             raise ExtractError(config, p.stdout)
         shutil.move(produced, out)
+        if not seeded:
+            save_template(tgt, tkey)
     finally:
         shutil.rmtree(tgt, ignore_errors=True)
         shutil.rmtree(tmpout, ignore_errors=True)
@@ -146,9 +150,109 @@ def extract(config, repo=None, crate="num_bigint", flags=None, profile=None):
     return out
 
 
+# ------------------------------------------------------------------------------------------
+# Dependency templates.  Every extraction and every matrix build uses a fresh target directory (cargo's freshness cache would
+# otherwise skip the driver), which used to recompile the dependencies - and, for the i686 configurations, core/alloc/std -
+# every time.  A template is a copy of such a target directory with every artefact of the workspace member removed; a fresh
+# target directory is seeded from it, so cargo finds the dependencies fresh and compiles (through the driver) the member only.
+# The key covers everything the dependency artefacts depend on: configuration, flags, RUSTFLAGS, toolchain, Cargo.toml,
+# Cargo.lock and the driver.  A tree whose manifest differs simply gets its own template.
+
+DEPS = os.path.join(CACHE, "_deps")
+MEMBER_PATTERNS = ("num-bigint-", "num_bigint-", "libnum_bigint-")
+_toolchain_id = {}
+
+
+def _toolchain(tc):
+    if tc not in _toolchain_id:
+        cmd = ["rustc"] + (["+" + tc] if tc != "stable" else []) + ["-vV"]
+        try:
+            _toolchain_id[tc] = subprocess.check_output(cmd, text=True)
+        except Exception:
+            _toolchain_id[tc] = tc
+    return _toolchain_id[tc]
+
+
+def deps_template_key(repo, tag, flags, rustflags, toolchain):
+    h = hashlib.sha256()
+    for part in (tag, " ".join(flags), rustflags or "", _toolchain(toolchain)):
+        h.update(part.encode())
+        h.update(b"\0")
+    for extra in ("Cargo.toml", "Cargo.lock", "build.rs"):
+        p = os.path.join(repo, extra)
+        if os.path.exists(p):
+            with open(p, "rb") as fh:
+                h.update(fh.read())
+        h.update(b"\0")
+    if os.path.exists(DRIVER):
+        st = os.stat(DRIVER)
+        h.update(("%d:%d" % (st.st_size, int(st.st_mtime))).encode())
+    return h.hexdigest()[:24]
+
+
+def seed_target(tgt, tkey):
+    """copy the dependency template into the (empty) target directory; False if there is none"""
+    if os.environ.get("NBSA_NO_DEPS_TEMPLATE"):
+        return False
+    tpl = os.path.join(DEPS, tkey)
+    if not os.path.isdir(tpl):
+        return False
+    p = subprocess.run(["cp", "-a", tpl + "/.", tgt + "/"], stdout=subprocess.PIPE, stderr=subprocess.STDOUT)
+    if p.returncode != 0:
+        import shutil
+
+        shutil.rmtree(tgt, ignore_errors=True)
+        os.makedirs(tgt, exist_ok=True)
+        return False
+    try:
+        os.utime(tpl, None)
+    except OSError:
+        pass
+    return True
+
+
+def save_template(tgt, tkey):
+    """keep a member-free copy of a target directory that was built from nothing"""
+    import shutil
+    import tempfile
+
+    if os.environ.get("NBSA_NO_DEPS_TEMPLATE"):
+        return
+    tpl = os.path.join(DEPS, tkey)
+    if os.path.isdir(tpl):
+        return
+    try:
+        os.makedirs(DEPS, exist_ok=True)
+        tmp = tempfile.mkdtemp(prefix=".new.", dir=DEPS)
+        p = subprocess.run(["cp", "-a", tgt + "/.", tmp + "/"], stdout=subprocess.PIPE, stderr=subprocess.STDOUT)
+        if p.returncode != 0:
+            shutil.rmtree(tmp, ignore_errors=True)
+            return
+        for root, dirs, files in os.walk(tmp):
+            for d in list(dirs):
+                if d.startswith(MEMBER_PATTERNS):
+                    shutil.rmtree(os.path.join(root, d), ignore_errors=True)
+                    dirs.remove(d)
+            for f in files:
+                if f.startswith(MEMBER_PATTERNS):
+                    os.unlink(os.path.join(root, f))
+        try:
+            os.rename(tmp, tpl)
+        except OSError:
+            shutil.rmtree(tmp, ignore_errors=True)  # another process saved it first
+        # bounded: at most 48 templates, oldest (by last use) first
+        ents = sorted((os.path.getmtime(os.path.join(DEPS, d)), d) for d in os.listdir(DEPS) if not d.startswith("."))
+        now = time.time()
+        for mt, d in ents[:-48]:
+            if now - mt > 3600:
+                shutil.rmtree(os.path.join(DEPS, d), ignore_errors=True)
+    except OSError:
+        pass
+
+
 def prune_cache(keep=None, max_entries=40):
     try:
-        ents = [(os.path.getmtime(os.path.join(CACHE, d)), d) for d in os.listdir(CACHE)]
+        ents = [(os.path.getmtime(os.path.join(CACHE, d)), d) for d in os.listdir(CACHE) if not d.startswith("_")]
     except OSError:
         return
     ents.sort(reverse=True)
